@@ -17,9 +17,10 @@ META = {
         "evaluation of ServerProxy.__init__ and _run_request over URL shapes, is path [+ '?' + query] with '/' substituted "
         "only for an empty path and always for unix+ URLs; C17.5 the same evaluation shows every scheme outside "
         "{http, https, unix+http} raising IOError in the constructor and every accepted one storing a transport; C17.6 (imported from "
-        "C19.3) each response is fed into a parser/target created for it, and close() returns exactly the join of what was fed. C17.7 (imported from C18.3) the read-only header table consulted when additional headers are merged is exactly {content-length, content-type} (lower case): a pushed Content-Type cannot replace or duplicate the configured one."),
+        "C19.3) each response is fed into a parser/target created for it, and close() returns exactly the join of what was fed. C17.7 (imported from C18.3) the read-only header table consulted when additional headers are merged is exactly {content-length, content-type} (lower case): a pushed Content-Type cannot replace or duplicate the configured one. C17.8 every constructor that receives a `config` hands that very object to each package constructor it calls (positionally or by keyword, against the callee's signature): the content type declared by a server / handler is the one of the Config it was given."),
     "does_not_decide": "gzip decoding, HTTP parsing, actual byte streams (http.client behaviour).",
-    "rules": {"C17.7": "imported C18.3 (read-only header table, constant folding vs spec)",
+    "rules": {"C17.8": "constructor call scan (common.check_config_forwarding)",
+              "C17.7": "imported C18.3 (read-only header table, constant folding vs spec)",
               "C17.1": "same-reaching-definition (E2) + provenance", "C17.2": "provenance", "C17.3": "loop-body call scan + reachability",
               "C17.4": "shape interpreter (E7) over URL shapes", "C17.5": "shape interpreter over schemes vs spec A.7", "C17.6": "imported C19.3"},
     "assumptions": ["urllib.parse.urlparse splits scheme/netloc/path/query as documented (its result is stubbed per case)"],
@@ -280,6 +281,10 @@ def check(ck):
     from rules import c18 as _c18r
     common.import_rules(ck, _c18r.rule_readonly_table, {"C18.3": "C17.7"})
     ck.floor("C17.7", 1)
+
+    # ---- C17.8 the configuration reaches every layer (shared with C01.10) --------------------------------------------------------
+    common.check_config_forwarding(ck, "C17.8")
+    ck.floor("C17.8", 4)
 
 
 def _reach_before_exit(g, start, head):
